@@ -143,6 +143,95 @@ func checkC14(c *CacheCase) (*ev.Failure, map[string]int) {
 	return nil, stats
 }
 
+// withExplicitHelpers returns the operation with the helper fields the planner would add (id first in every selection
+// of a Node type, __typename and id on abstract types) written out by the client: its selection text equals the
+// selection of the original operation after planning.
+func withExplicitHelpers(schema *ast.Schema, query string) (string, bool) {
+	doc, errs := gqlparser.LoadQuery(schema, query)
+	if errs != nil {
+		return "", false
+	}
+	changed := false
+	implementsNode := func(d *ast.Definition) bool {
+		for _, in := range d.Interfaces {
+			if in == "Node" {
+				return true
+			}
+		}
+		return false
+	}
+	helper := func(name string) *ast.Field { return &ast.Field{Name: name, Alias: name} }
+	var walk func(ss ast.SelectionSet) ast.SelectionSet
+	walk = func(ss ast.SelectionSet) ast.SelectionSet {
+		for _, sel := range ss {
+			switch x := sel.(type) {
+			case *ast.Field:
+				if len(x.SelectionSet) == 0 || x.Definition == nil {
+					continue
+				}
+				x.SelectionSet = walk(x.SelectionSet)
+				d := schema.Types[x.Definition.Type.Name()]
+				if d == nil {
+					continue
+				}
+				abstract := d.Kind == ast.Interface || d.Kind == ast.Union
+				needID := false
+				if abstract {
+					if !containsFieldNamed(x.SelectionSet, "__typename") {
+						x.SelectionSet = append(ast.SelectionSet{helper("__typename")}, x.SelectionSet...)
+						changed = true
+					}
+					pts := schema.PossibleTypes[d.Name]
+					needID = d.Fields.ForName("id") != nil && len(pts) > 0 && implementsNode(pts[0])
+				} else {
+					needID = implementsNode(d)
+				}
+				if needID && !containsFieldNamed(x.SelectionSet, "id") {
+					x.SelectionSet = append(ast.SelectionSet{helper("id")}, x.SelectionSet...)
+					changed = true
+				}
+			case *ast.InlineFragment:
+				x.SelectionSet = walk(x.SelectionSet)
+			}
+		}
+		return ss
+	}
+	for _, op := range doc.Operations {
+		op.SelectionSet = walk(op.SelectionSet)
+	}
+	for _, fr := range doc.Fragments {
+		fr.SelectionSet = walk(fr.SelectionSet)
+	}
+	if !changed {
+		return "", false
+	}
+	out := formatDoc(doc)
+	if _, errs := gqlparser.LoadQuery(schema, out); errs != nil {
+		return "", false
+	}
+	return out, true
+}
+
+func containsFieldNamed(ss ast.SelectionSet, name string) bool {
+	for _, sel := range ss {
+		switch x := sel.(type) {
+		case *ast.Field:
+			if x.Name == name {
+				return true
+			}
+		case *ast.InlineFragment:
+			if containsFieldNamed(x.SelectionSet, name) {
+				return true
+			}
+		case *ast.FragmentSpread:
+			if x.Definition != nil && containsFieldNamed(x.Definition.SelectionSet, name) {
+				return true
+			}
+		}
+	}
+	return false
+}
+
 // addTwinRootField gives Mutation a field with the name and signature of a Query field (cache keys ignore the operation type).
 func addTwinRootField(m *world.Model, t *rapid.T) bool {
 	qs := m.Roots["Query"]
@@ -232,20 +321,43 @@ func genCacheCase(t *rapid.T) (*CacheCase, []string) {
 				c.Pool = append(c.Pool, gwx.GQLRequest{Query: tq, Variables: op.Variables})
 				labels = append(labels, "collision:opType")
 			}
+			// the operation with the planner's helper fields written out by the client
+			if hq, ok := withExplicitHelpers(union, op.Query); ok {
+				hreq := gwx.GQLRequest{Query: hq, Variables: op.Variables, OperationName: op.OperationName}
+				if closedGateIn(caseFeatures(&ExecCase{World: w, Op: opgen.Op{Query: hq, Variables: op.Variables, OperationName: op.OperationName}})) == "" {
+					c.Pool = append(c.Pool, hreq)
+					labels = append(labels, "collision:explicitHelpers")
+				}
+			}
 			// variable value variants
 			if len(op.Variables) > 0 {
 				v2 := map[string]interface{}{}
 				for k, v := range op.Variables {
 					v2[k] = v
 				}
+				// only values whose variable type stays satisfied are changed (an enum value + "2" would make the
+				// request fail at the service with a message that depends on map iteration order there)
+				vtypes := map[string]string{}
+				for _, o := range doc.Operations {
+					for _, vd := range o.VariableDefinitions {
+						vtypes[vd.Variable] = vd.Type.String()
+					}
+				}
 				for k, v := range v2 {
+					base := strings.Trim(vtypes[k], "!")
 					switch x := v.(type) {
 					case string:
-						v2[k] = x + "2"
+						if base == "String" || base == "ID" {
+							v2[k] = x + "2"
+						}
 					case float64:
-						v2[k] = x + 1
+						if base == "Int" || base == "Float" {
+							v2[k] = x + 1
+						}
 					case bool:
-						v2[k] = !x
+						if base == "Boolean" {
+							v2[k] = !x
+						}
 					}
 				}
 				c.Pool = append(c.Pool, gwx.GQLRequest{Query: op.Query, Variables: v2, OperationName: op.OperationName})
